@@ -293,6 +293,34 @@ fn judge(case: &Case, determinism: bool, out: &mut CaseOut, want_sample: bool)
 				),
 				Ok(bytes) =>
 				{
+					// (4b) the report shows the reported line of the source: a
+					// label that falls outside the source is dropped silently
+					// by the renderer, and the excerpt with it
+					if !color
+					{
+						if let Some((_, text)) = files.iter().find(|(n, _)| *n == loc.source_filename)
+						{
+							let squeeze = |t: &str| -> String { t.chars().filter(|c| !c.is_whitespace() && !c.is_control()).collect() };
+							let shown = squeeze(&String::from_utf8_lossy(&bytes));
+							let nth = |k: usize| squeeze(text.split('\n').nth(k).unwrap_or(""));
+							let line = nth(loc.line_number.saturating_sub(1));
+							// (a label at the very start of a line is drawn at the
+							// end of the nearest non-empty line before it)
+							let before = (0..loc.line_number.saturating_sub(1)).rev().map(|k| nth(k)).find(|l| !l.is_empty()).unwrap_or_default();
+							// (the renderer also ends lines at CR, VT, FF, NEL, LS and
+							// PS: lines that contain one are not looked at)
+							let raw_line = text.split('\n').nth(loc.line_number.saturating_sub(1)).unwrap_or("");
+							let exotic = raw_line.chars().any(|ch| matches!(ch, '\r' | '\u{b}' | '\u{c}' | '\u{85}' | '\u{2028}' | '\u{2029}'));
+							let found = exotic || shown.contains(&line) || (!before.is_empty() && shown.contains(&before));
+							if !line.is_empty() && line.chars().count() <= 200 && !found
+							{
+								out.fail(
+									format!("{}: the report does not show the reported source line", variant),
+									json!({"files": files_json, "line": loc.line_number, "report": String::from_utf8_lossy(&bytes), "ascii": ascii}),
+								);
+							}
+						}
+					}
 					let source_has_esc = files.iter().any(|(_, s)| s.contains('\u{1b}'));
 					if !color && !source_has_esc && bytes.contains(&0x1b)
 					{
@@ -318,6 +346,37 @@ fn judge(case: &Case, determinism: bool, out: &mut CaseOut, want_sample: bool)
 		}
 	}
 	out.nontrivial = nontrivial;
+	// (4c) a final newline changes nothing: a file that ends right after its
+	// last token gets the same diagnostics, at the same places, drawn the same
+	// way, as the same file with a newline at the end
+	if files.len() == 1 && !o.raw.is_empty() && !files[0].1.is_empty() && !files[0].1.ends_with('\n') && o.raw.iter().all(|e| e.code() >= 300)
+	{
+		let with_newline = vec![(files[0].0.clone(), format!("{}\n", files[0].1))];
+		let o2 = alpha::compile_modules(&with_newline, alpha::Options::default());
+		let show = |errs: &[penne::alpha::Error], fs: &[(String, String)]| -> Vec<String> {
+			errs.iter()
+				.map(|e| {
+					let l = e.verif_location();
+					let text = std::panic::catch_unwind(std::panic::AssertUnwindSafe(|| render(e, fs, false, true)))
+						.ok()
+						.and_then(|r| r.ok())
+						.map(|b| String::from_utf8_lossy(&b).to_string())
+						.unwrap_or_default();
+					format!("E{} {}:{} {:?}\n{}", e.code(), l.line_number, l.line_offset, l.span, text)
+				})
+				.collect()
+		};
+		let (a, b) = (show(&o.raw, files), show(&o2.raw, &with_newline));
+		if a != b
+		{
+			let k = a.iter().zip(b.iter()).position(|(x, y)| x != y).unwrap_or(0);
+			out.fail(
+				format!("a final newline changes the diagnostics (E{})", o.raw.get(k).map(|e| e.code()).unwrap_or(0)),
+				json!({"files": files_json, "without_final_newline": a.get(k), "with_final_newline": b.get(k)}),
+			);
+		}
+		out.class("checked:final-newline");
+	}
 	// (5) compilation is a function of its inputs
 	if determinism
 	{
@@ -509,6 +568,18 @@ fn typed_edit(c: &mut Choices) -> Case
 		planted_at: None,
 	}
 }
+/// cyclic constants and structures (C11's generator): the cycle diagnostics
+/// name one of several declarations, and must name the same one every time
+fn declaration_graph(c: &mut Choices) -> Case
+{
+	let g = crate::c11::dependency_graph(c, true);
+	Case {
+		files: vec![("main.pn".into(), g.src)],
+		kind: "declaration-graph",
+		planted_at: None,
+	}
+}
+stream!(DeclarationGraphs, "declaration-graphs", 500, 20_000, 120, 1, declaration_graph);
 stream!(ExpressionFaults, "planted-expression-fault", 8000, 100_000, 1800, 10, expression_fault);
 stream!(TypedEdits, "typed-edits", 8000, 100_000, 1800, 10, typed_edit);
 stream!(SemanticFaults, "planted-semantic-fault", 8000, 100_000, 1800, 10, semantic_fault);
@@ -573,7 +644,7 @@ impl Check for C13
 	}
 	fn rule(&self) -> String
 	{
-		"rejected (and lint-carrying) inputs from: byte/token-mutated corpus files, generated programs with 1-3 token edits in plain or random layout (CRLF, multi-byte comments), token soup, a single offending character planted before a random token of a generated program with multi-byte comments / CRLF before it, one of 13 ill-formed declarations planted into a generated program printed in a random layout with multi-byte comments, one of 22 functions with a fault inside an expression (bit casts, lengths, addresses, strings, indices, members, calls, array literals, shifts, casts) planted the same way, generated programs with one type-breaking edit (C07's editor) in a random layout, module sets with imports, correctly split multi-file programs, and 18 fixed edge files (empty, whitespace-only, fault on the last line / at EOF without newline, CRLF with multi-byte text). Oracle, for every diagnostic: (1) code in the published catalogue (docs/errors.md headings parsed live + 8 frozen codes); (2) primary location names a compiled file, 0 <= start <= end <= chars, and the line containing `start` is the reported line; (3) for undefined/duplicate-name variants the text at the span equals the name, for a planted character the span covers it; (4) build_report + Report::write succeeds (a panic of the renderer counts as failure) for {colour on/off} x {unicode, ascii}, no ESC byte without colour, ASCII-only output for ASCII sources with ascii arrows; (5) on a sample (every 10th/20th case, every module set, every split program, every edge file) the case is compiled again in two fresh processes: verdict, ordered codes, locations, rendered text and all IR text must be identical. Non-trivial: diagnostic from the scoper or later, or on line >= 2 after a non-ASCII character or CR; distinct by source.".into()
+		"rejected (and lint-carrying) inputs from: byte/token-mutated corpus files, generated programs with 1-3 token edits in plain or random layout (CRLF, multi-byte comments), token soup, a single offending character planted before a random token of a generated program with multi-byte comments / CRLF before it, one of 13 ill-formed declarations planted into a generated program printed in a random layout with multi-byte comments, one of 22 functions with a fault inside an expression (bit casts, lengths, addresses, strings, indices, members, calls, array literals, shifts, casts) planted the same way, generated programs with one type-breaking edit (C07's editor) in a random layout, cyclic dependency graphs of constants and structures (C11's generator; every case compiled again in two fresh processes), module sets with imports, correctly split multi-file programs, and 18 fixed edge files (empty, whitespace-only, fault on the last line / at EOF without newline, CRLF with multi-byte text). Oracle, for every diagnostic: (1) code in the published catalogue (docs/errors.md headings parsed live + 8 frozen codes); (2) primary location names a compiled file, 0 <= start <= end <= chars, and the line containing `start` is the reported line; (3) for undefined/duplicate-name variants the text at the span equals the name, for a planted character the span covers it; (4) build_report + Report::write succeeds (a panic of the renderer counts as failure) and the report rendered without colour contains the text of the reported source line for {colour on/off} x {unicode, ascii}, no ESC byte without colour, ASCII-only output for ASCII sources with ascii arrows; (4c) a file that does not end in a newline gets the same non-lexical diagnostics, locations and reports as the same file with a final newline; (5) on a sample (every 10th/20th case, every module set, every split program, every edge file) the case is compiled again in two fresh processes: verdict, ordered codes, locations, rendered text and all IR text must be identical. Non-trivial: diagnostic from the scoper or later, or on line >= 2 after a non-ASCII character or CR; distinct by source.".into()
 	}
 	fn assumptions(&self) -> Vec<String>
 	{
@@ -593,6 +664,7 @@ impl Check for C13
 			Box::new(Planted),
 			Box::new(SemanticFaults),
 			Box::new(ExpressionFaults),
+			Box::new(DeclarationGraphs),
 			Box::new(TypedEdits),
 			Box::new(ModuleSets),
 			Box::new(SplitPrograms),
